@@ -609,14 +609,31 @@ def compare_fl32(ctx, c, obs, rep, N):
     m = np.abs(P).max(axis=0)
     k1_col = (m > 0) & (m <= N * TINY)          # '<=': m*fl(1/N) may land just below the normal range
     sub_col = ((np.abs(X) > 0) & (np.abs(X) < TINY)).any(axis=0)   # incl. a subnormal extracted diagonal (K4)
-    iq = np.array(obs["q"], dtype=np.int64).reshape(rows, cols)
     ib = [f32_fraction(v) for v in unhex(obs["bucket"])]
+    if len(obs["q"]) != rows * cols or len(ib) != cols:
+        # the implementation no longer produces one bucket per column / one integer per entry (e.g. a change of the reduction
+        # axes): that is a disagreement with the model, not a harness error
+        ctx.disagree("fl32.column", slim(c), {"n_q": len(obs["q"]), "n_bucket": len(ib)}, {"n_q": rows * cols, "n_bucket": cols},
+                     "implementation payload/bucket_size do not have the shapes the model predicts (rows x cols, cols)")
+        return
+    iq = np.array(obs["q"], dtype=np.int64).reshape(rows, cols)
     iy = unhex(obs["deq"], (rows, cols))
     variants = {}
     for k in ("00", "01", "10", "11"):
         r = rep[k]
         variants[k] = (np.array(r["q"], dtype=np.int64).reshape(rows, cols), [Fraction(t) for t in r["bucket"]],
                        r["deq"], bool(r["overflow"]))
+    # guard of roundtrip_fp_xla_fl32 / no_wrap_fp_fl32 (NormalCol 2^-126 N), evaluated by the model per column: inside it the
+    # theorems promise the bound for the executed model, so such a column must never be one the comparison skips as a
+    # flush regime of the bucketed part, and the implementation must meet the theorem's bound there
+    guard = [bool(g) for g in rep["normal"]]
+    P_sub = ((np.abs(P) > 0) & (np.abs(P) < TINY)).any(axis=0)
+    bt = m / N
+    for j in range(cols):
+        ctx.dist("fl32_guard:" + ("inside" if guard[j] else "outside"))
+        if guard[j] and (k1_col[j] or P_sub[j]):
+            ctx.disagree("fl32.guard", slim(c), "flush regime (K1/K2) by the harness classification", "NormalCol holds",
+                         f"column {j}: the theorem's guard holds for a column the harness treats as a flush regime")
     if any(v[3] for v in variants.values()):
         ctx.corr("fl32.skipped_overflow_regime(K3)", True, cols)
         return
@@ -933,6 +950,10 @@ def judge_sites(ctx, results, NB):
             if sv["ed"] and (np.diag(q) != 0).any():
                 what.append("non-zero payload on the extracted diagonal")
             mx = np.abs(q).max(axis=0)
+            if b.shape != mx.shape:
+                ctx.violation(f"{cfg['opt']} call site: stored QuantizedValue has {b.size} bucket sizes for {cols} columns "
+                              f"(one bucket per column = all indices sharing the trailing coordinates)", {"site_cfg": cfg})
+                continue
             if ((b > 0) & (mx != N)).any():
                 what.append("a column with positive bucket size whose largest |integer| is not N")
             if ((b == 0) & (mx != 0)).any() or (b < 0).any() or not sv["finite"]:
@@ -976,6 +997,8 @@ def const_stage(ctx):
         # hypotheses of roundtrip_fp (N >= 2) and of roundtrip_fp_xla / no_wrap_fp / max_hits_N_fp (N*u <= 1/16) at u = 2^-24
         if NB[dt] < 2:
             ctx.const_fail(f"num_buckets[{dt}]", f"{v!r} < 2: roundtrip_fp assumes N >= 2")
+        if NB[dt] * 32 > 2 ** 24:
+            ctx.const_fail(f"num_buckets[{dt}]", f"{v!r}: N * 2^-24 > 1/32, outside the hypothesis of requantize_idempotent_fp")
         if NB[dt] * 16 > 2 ** 24:
             ctx.const_fail(f"num_buckets[{dt}]", f"{v!r}: N * 2^-24 > 1/16, outside the hypothesis of roundtrip_fp_xla / no_wrap_fp")
     ctx.cov["constants"] = {"num_buckets": {k: nb[k] for k in nb}, "unit_roundoff": "2^-24 (float32 inputs)",
@@ -994,6 +1017,9 @@ def run(ctx):
         "float stream: stored integers == Rat model except +-1 where the exact ratio is within N*2^-22 of a half-integer (counted as boundary); "
         "bucket_size within 1.5*2^-23 relative of exact max|x|/N (the jit path multiplies by fl(1/N))",
         "oracle slack (1/2 + (3N+2)*2^-24)*bucket (theorem roundtrip_fp_xla with u = 2^-24), evaluated in float64 from the exact column max-abs",
+        "theorems roundtrip_fp_xla_fl32 / no_wrap_fp_fl32 apply to columns inside the guard NormalCol 2^-126 N (reported per column by the "
+        "driver, counted as fl32_guard:inside/outside); columns outside it (flush / overflow regimes, entries below 2^-124 buckets) are covered "
+        "by execution only",
         "FLOAT32-EXACT stream: bit equality with one of the four division variants of the rounded-arithmetic model; a column is skipped when it "
         "is in the K1 regime, has a subnormal entry (K2), or the model flags an overflow (K3 regime)",
         "bfloat16: correctly rounded (ties to even, gradual underflow) against the Rat model; finite inputs above the bfloat16 range round to inf "
